@@ -26,7 +26,7 @@ META = dict(
                                           "last closes in the lending quote symbol (the code's and the docs' notion)"],
     outside=["more than 2 priced pairs / 2 earlier loans", "margin calls (not implemented by basana)"],
     required_covers=["a loan was granted", "a borrow request was refused", "a zero-equity account asked for a loan",
-                     "an auto-borrow order was accepted"],
+                     "an auto-borrow order was accepted", "something was borrowed and sold before the request"],
 )
 
 CLOSES = {"BTC": ["100", "31234.56"], "ETH": ["2.5", "1800"]}
@@ -46,8 +46,9 @@ def equity_and_used(w, bal):
 
 def borrow(ctx, path="create_loan", lend="margin", earlier=1, margin_req="0.5", min_interest="0", kind="limit",
            side="buy"):
+    init = {"BTC": Decimal(0)} if earlier == "short" else None
     w = World(ctx, props=(), lend=lend, npairs=2, closes=None, margin_req=margin_req, min_interest=min_interest,
-              subscribe=False, namounts=2)
+              subscribe=False, namounts=2, init=init, fee="none" if earlier == "short" else "pctmin")
     # one bar per pair with a solver-chosen close
     for i, pair in enumerate(w.pairs):
         w.closes = CLOSES[pair.base_symbol]
@@ -64,6 +65,16 @@ def borrow(ctx, path="create_loan", lend="margin", earlier=1, margin_req="0.5", 
         for lab in META["required_covers"]:
             ctx.cover(lab)
         return
+    if earlier == "short":
+        # an earlier short sale: BTC is borrowed by an auto-borrow market sell and sold on the next bar, so that something
+        # is borrowed in a symbol whose balance is exactly zero when the loan under test is requested
+        oid0 = w.place("short", kind="market", side=SELL, auto_borrow=True)
+        w.closes = CLOSES["BTC"]
+        w.feed_bar("b_short", pair_idx=0)
+        w.closes = None
+        if oid0 is not None and bool(w.info(oid0).amount_filled > 0):
+            ctx.cover("something was borrowed and sold before the request")
+        earlier = 0
     for n in range(earlier):
         w.create_loan("earlier%d" % n)
     pre = w.balances()
@@ -107,6 +118,10 @@ def jobs(tier):
                 js.append(Job("auto-borrow %s %s req=%s" % (kind, side, req), "borrow",
                               dict(path="order", margin_req=req, earlier=0, kind=kind, side=side),
                               validate_every=20, sample_every=50, max_paths=200000))
+    for req in ("0.5", "1"):
+        js.append(Job("create_loan after a short sale req=%s" % req, "borrow",
+                      dict(path="create_loan", margin_req=req, earlier="short"), validate_every=20, sample_every=50,
+                      max_paths=200000, split=32))
     js.append(Job("NoLoans", "borrow", dict(lend="none", earlier=0), validate_every=10, sample_every=20))
     if tier == "thorough":
         for req in ("0.25", "0.5"):
